@@ -55,8 +55,10 @@ func nearbyInj(r *vh.Rng, c *Case) Inj {
 		return Inj{Kind: "stop", Target: r.Intn(len(c.RRs))}
 	case k < 90:
 		return Inj{Kind: "purge", Target: r.Intn(len(c.RRs))}
-	case k < 95:
+	case k < 94:
 		return Inj{Kind: "outside", Target: r.Intn(c.Slots)}
+	case k < 97:
+		return Inj{Kind: "cancelparent", Target: r.Intn(len(c.RRs))}
 	default:
 		return Inj{Kind: "flush", Target: r.Intn(len(c.RRs))}
 	}
